@@ -112,10 +112,11 @@ func check(run *stats.Run, f stats.Failer, c Case) verdict {
 			run.Excluded("K08-hash-colliders")
 		}
 	}
-	inner := prog.NewStore(storeKind)
+	var atoms []ast.Atom
 	for _, fact := range extra {
-		inner.Add(fact.ToAtom())
+		atoms = append(atoms, fact.ToAtom())
 	}
+	inner := prog.NewLoadedStore(storeKind, atoms)
 	created := 0
 	store := countingStore{FactStore: inner, created: &created, bound: B}
 	var evalErr error
